@@ -19,7 +19,7 @@ def sh(cmd, cwd=None, timeout=3600, e=None):
     return p.returncode, (p.stdout + p.stderr)
 
 os.makedirs(DST, exist_ok=True)
-for f in os.listdir(SRC):
+for f in (os.listdir(SRC) if os.path.isdir(SRC) else []):
     if not os.path.exists(os.path.join(DST, f)):     # keep what is already there (meta.json carries the confirmation)
         shutil.copy(os.path.join(SRC, f), os.path.join(DST, f))
 meta = json.load(open(os.path.join(DST, "meta.json")))
